@@ -55,7 +55,27 @@ fn build_trace(run: &RunState, events: &[sim::Ev]) -> Value {
             json!([e.seq, e.task, k, n, if e.op == u32::MAX { Value::Null } else { json!(e.op) }])
         })
         .collect();
-    json!({ "ops": ops, "events": evs, "event_format": ["seq", "task", "kind", "name", "op"] })
+    let disk: Vec<Value> = run
+        .disk
+        .snaps
+        .iter()
+        .map(|s| {
+            let views: Vec<String> = s
+                .views
+                .iter()
+                .map(|v| match v {
+                    crate::disk::View::Absent => "absent".to_string(),
+                    crate::disk::View::Unreadable => "unreadable".to_string(),
+                    crate::disk::View::Bytes { content, mtime, ino } => {
+                        format!("content#{content} mtime={mtime:?} ino={ino}")
+                    }
+                })
+                .collect();
+            json!({"from_event": s.begin, "names": views, "container_ok": s.container_ok,
+                   "alias_target": s.alias_target, "other_index_names": s.extra_names, "image_ino": s.image_ino})
+        })
+        .collect();
+    json!({ "ops": ops, "events": evs, "event_format": ["seq", "task", "kind", "name", "op"], "disk_states": disk })
 }
 
 /// (a fault step landed inside an in-flight database operation,
